@@ -325,6 +325,22 @@ def run(ctx):
         r4.check(bool(wr.get(fld)) and not strangers, "established-stays:" + fld, "QueryRouter.%s is written only by %s" % (fld, sorted(x.split("::")[-1] for x in wr.get(fld, ()))),
                  "QueryRouter.%s is also written by %s: what the client's SET established changes without the client having sent a command, and SHOW reports something the client never set" % (fld, [x.replace(QR, "") for x in strangers]))
 
+    # SET SHARDING KEY establishes the shard of *this* key under the pool's *current* settings, every time it is sent: set_sharding_key passes
+    # Sharder::shard and the write of the selection on every way through - a shortcut on `same key as last time` answers CommandComplete and
+    # establishes nothing when SET SHARD, a sharding comment, an inferred shard or a reload moved the selection in between
+    ssk = F.body("pgcat::query_router::QueryRouter::set_sharding_key")
+    if ssk is None:
+        r4.missing("QueryRouter::set_sharding_key")
+    else:
+        shc = [c.block for c in ssk.calls("pgcat::sharding::Sharder::shard")]
+        wrs = [c.block for c in ssk.calls("pgcat::query_router::QueryRouter::set_shard")] + [blk for blk, i, st in ssk.assigns() if proj_fields(st["lhs"])[-1:] == ["active_shard"]]
+        rets_ = [bb for bb, blk in enumerate(ssk.blocks) if blk["term"]["k"] == "return"]
+        w1 = ssk.uncrossed_path([0], rets_, blocks=shc) if shc else [0]
+        w2 = ssk.uncrossed_path([0], rets_, blocks=wrs) if wrs else [0]
+        r4.check(w1 is None and w2 is None, "sharding-key-always-established", "set_sharding_key computes the shard of its argument and writes the selection on every way through",
+                 "set_sharding_key can return without computing the shard of the key it was given (or without writing the selection): the command is acknowledged, SHOW SHARD reports what an intervening SET SHARD / comment / "
+                 "inference / reload left, and the next statement runs on that shard's servers", "", (w1 and w1 != [0] and ssk.describe_path(w1)) or (w2 and w2 != [0] and ssk.describe_path(w2)))
+
     # ---------------- R5 totality on query-derived text
     r5 = ctx.rule("C13-R5", "try_execute_command has no panic-capable operation on data derived from the query text other than the discharged ones (numeric arguments of any length get a reply, not a panic)", floor=5)
     if tec:
